@@ -97,8 +97,9 @@ PROPS = {
                 "(1, 7, 60, L, L+2), threads 1/2/4/16; sam.ToMultiAlign in-process; non-trivial = some CIGAR has an operator other than M",
     },
     "C02": {
-        "extra_imports": ["Gofasta.Lemmas.PairSingle"],
-        "extra_theorems": ["Gofasta.Lemmas.blockToSeqPair_single", "Gofasta.Lemmas.single_ref_lossless", "Gofasta.Lemmas.single_lengths",
+        "extra_imports": ["Gofasta.Lemmas.PairSingle", "Gofasta.Lemmas.PairSpec"],
+        "extra_theorems": ["Gofasta.Lemmas.PairSpec.specPair_lossless", "Gofasta.Lemmas.PairSpec.specPair_skip_insertions",
+                           "Gofasta.Lemmas.PairSpec.specPair_lengths", "Gofasta.Lemmas.blockToSeqPair_single", "Gofasta.Lemmas.single_ref_lossless", "Gofasta.Lemmas.single_lengths",
                            "Gofasta.Lemmas.single_gap_count", "Gofasta.Lemmas.walk_keepRefCols", "Gofasta.Lemmas.single_skip_insertions"],
         "streams": {"C02": (500, 10000)},
         "thorough_seeds": 3,
